@@ -49,6 +49,10 @@ ASSUMPTIONS = [
     "next battery request (the repeat count is not part of the transcript)",
     "PYTHONHASHSEED=random children make the check as strong as their luck; the fixed hash seeds 0/1/4242 decide",
     "quick tier: battery in at most 3 sessions per model (session 1 first), thorough: all sessions",
+    "CLI parameter sets go through gallia's own argument parser (create_parser(load_commands()), 'script vecu rng "
+    "<target> --seed N ...'), i.e. the lists arrive as strings; model-only, in every environment",
+    "parameter sets that share seed and all probabilities are also built one after the other in one process (both "
+    "orders) and each model compared with the fresh-process model of its own parameter set",
     "parameter sets with overlapping mandatory / optional lists are model-only cases (model + graph clauses in 3 "
     "environments, no request battery): 32 seeds quick, 256 thorough",
 ]
@@ -106,6 +110,33 @@ for _p in (0.2, 0.5):
     ]
 OVERLAP_ENVS = (("0", "A", 0), ("1", "A", 0), ("random", "B", 1))  # (PYTHONHASHSEED, import order, clock)
 
+# Parameter sets handed over exactly as a user does: the argument vector of `gallia script vecu rng ...` goes through
+# gallia's own argument parser (create_parser(load_commands()) -> parse_typed_args -> get_command), so the lists reach
+# the configuration model as *strings* (numbers in several spellings, service names, repeated entries).  Model-only,
+# in every process environment.  "__oracle__" says what the strings mean (for the mandatory-present clause).
+CLI_SETS: list[tuple[str, dict[str, Any]]] = [
+    (
+        "cli-bats",
+        {
+            "__argv__": ["--mandatory-sessions", "1", "2", "3", "--mandatory-services", "DiagnosticSessionControl", "EcuReset",
+                         "ReadDataByIdentifier", "WriteDataByIdentifier", "RoutineControl", "SecurityAccess", "ReadMemoryByAddress",
+                         "WriteMemoryByAddress", "RequestDownload", "RequestUpload", "TesterPresent", "ReadDTCInformation",
+                         "ClearDiagnosticInformation", "InputOutputControlByIdentifier"],
+            "__oracle__": {"mandatory_sessions": [1, 2, 3], "mandatory_services": [0x10, 0x11, 0x22, 0x2E, 0x31, 0x27, 0x23, 0x3D, 0x34, 0x35, 0x3E, 0x19, 0x14, 0x2F]},
+        },
+    ),  # fmt: skip
+    (
+        "cli-repeated-entries",
+        {
+            "__argv__": ["--mandatory-sessions", "1", "2", "3", "2", "0x40", "1", "--optional-sessions", "4", "5", "0x41", "0x42", "4", "66",
+                         "--mandatory-services", "DiagnosticSessionControl", "EcuReset", "ReadDataByIdentifier", "EcuReset", "0x27", "TesterPresent",
+                         "--optional-services", "WriteDataByIdentifier", "RoutineControl", "ReadDTCInformation", "RoutineControl", "0x85", "0x28", "0x2f",
+                         "--p-service", "0.5", "--p-session", "0.3"],
+            "__oracle__": {"mandatory_sessions": [1, 2, 3, 0x40], "mandatory_services": [0x10, 0x11, 0x22, 0x27, 0x3E]},
+        },
+    ),  # fmt: skip
+]
+
 
 # ---------------------------------------------------------------------------
 # child
@@ -160,10 +191,24 @@ def _child(spec: dict[str, Any]) -> None:
     vc.G["service"] = service  # for the codec driven generator only; no harness seams in the child
     target = TargetURI(TARGET)
 
-    def new_server(cfg: Any = None) -> Any:
+    cli: dict[str, Any] = {}
+
+    def make_cfg(p: dict[str, Any] | None = None) -> Any:
+        p = params if p is None else p
+        if "__argv__" not in p:
+            return vecu.RngVirtualECUConfig(target=target, seed=seed, **p)
+        if not cli:
+            from gallia.cli import gallia as cli_mod
+
+            cli.update(parser=cli_mod.create_parser(cli_mod.load_commands()), get_command=cli_mod.get_command)
+        _, cfg = cli["parser"].parse_typed_args(["script", "vecu", "rng", TARGET, "--seed", str(seed)] + list(p["__argv__"]))
+        return cfg
+
+    def new_server(cfg: Any = None, p: dict[str, Any] | None = None) -> Any:
         if cfg is None:
-            cfg = vecu.RngVirtualECUConfig(target=target, seed=seed, **params)
-        srv = vecu.RngVirtualECU(cfg)._server()
+            cfg = make_cfg(p)
+        cmd = cli["get_command"](cfg) if "__argv__" in (params if p is None else p) else vecu.RngVirtualECU(cfg)
+        srv = cmd._server()
         vc.drive(srv.setup())
         return srv, S.TCPUDSServerTransport(srv, target)
 
@@ -174,7 +219,7 @@ def _child(spec: dict[str, Any]) -> None:
         """restart-like situations inside one process, all of which must give the model of the first server:
         a second server built from the *same* parameters object, setup() called again on the same server, a server
         from a fresh parameters object; and setup() must leave the parameters object as it was."""
-        cfg = vecu.RngVirtualECUConfig(target=target, seed=seed, **params)
+        cfg = make_cfg()
         before = cfg_dump(cfg)
         first, _ = new_server(cfg)
         after_first = cfg_dump(cfg)
@@ -215,6 +260,14 @@ def _child(spec: dict[str, Any]) -> None:
         return r, r.hex()
 
     out = []
+    if spec.get("cross"):
+        # servers for *different* parameter sets one after the other in this one process
+        for seed in seeds:
+            for pos, (pname, p) in enumerate(spec["cross"]):
+                srv, _ = new_server(p=p)
+                out.append({"pname": pname, "seed": seed, "pos": pos, "model_sha": hashlib.sha256(json.dumps(dump(srv), sort_keys=True).encode()).hexdigest()})
+        sys.stdout.write(json.dumps(out))
+        return
     for seed in seeds:
         srv, tr = new_server()
         model = dump(srv)
@@ -352,13 +405,14 @@ def _child(spec: dict[str, Any]) -> None:
 
 
 def run_child(
-    env: tuple[Any, ...], params: dict[str, Any], seeds: list[int], full: bool = False, max_sessions: int | None = None, model_only: bool = False
+    env: tuple[Any, ...], params: dict[str, Any], seeds: list[int], full: bool = False, max_sessions: int | None = None, model_only: bool = False,
+    cross: list[Any] | None = None,
 ) -> list[dict[str, Any]]:
     _label, hashseed, order, clockv, _axis = env
     repo = os.environ.get("VERIF_REPO", "/repo")
     e = dict(os.environ)
     e.update(PYTHONHASHSEED=hashseed, PYTHONPATH=f"{repo}/src:{ROOT}", PYTHONDONTWRITEBYTECODE="1")
-    spec = {"order": order, "clock": clockv, "seeds": seeds, "params": params, "full": full, "max_sessions": max_sessions, "model_only": model_only}
+    spec = {"order": order, "clock": clockv, "seeds": seeds, "params": params, "full": full, "max_sessions": max_sessions, "model_only": model_only, "cross": cross}
     p = subprocess.run([PY, str(Path(__file__).resolve()), "--child", json.dumps(spec)], env=e, capture_output=True, timeout=3600, check=False)
     if p.returncode != 0:
         raise RuntimeError(f"child failed ({p.returncode}) env={env} seeds={seeds}: {p.stderr.decode()[-1500:]}")
@@ -389,7 +443,29 @@ def items(tier: str, seed: int) -> list[tuple[Any, ...]]:
         for env in envs:
             if tuple(env[1:4]) in OVERLAP_ENVS:
                 out.append((pname, params, list(range(n_overlap)), list(env), max_sessions, True))
+    n_cli = 8 if tier == "quick" else 64
+    for pname, params in CLI_SETS:
+        for env in envs:
+            out.append((pname, params, list(range(n_cli)), list(env), max_sessions, True))
+    # several parameter sets that agree in seed and in every model probability (their lists differ), built one after
+    # the other in one process, in both orders; compared in finish() with each set's own fresh-process model
+    for fam, members in enumerate(_families()):
+        for order in ("F", "R"):
+            sets = members if order == "F" else members[::-1]
+            out.append(("__cross__", {"sets": [[n, dict(PARAM_SETS + OVERLAP_SETS)[n]] for n in sets], "order": order, "family": fam},
+                        list(range(n_other)), list(envs[0]), max_sessions, True))  # fmt: skip
     return out
+
+
+# the probabilities the *model* depends on, with their defaults (the reply probabilities do not enter the model)
+_PROBS = {"p_session": 0.05, "p_service": 0.2, "p_sub_function": 0.05}
+
+
+def _families() -> list[list[str]]:
+    groups: dict[tuple[Any, ...], list[str]] = {}
+    for pname, params in PARAM_SETS + OVERLAP_SETS:
+        groups.setdefault(tuple(float(params.get(k, dflt)) for k, dflt in _PROBS.items()), []).append(pname)
+    return [g for g in groups.values() if len(g) >= 2]
 
 
 def _strip(problem: str) -> str:
@@ -421,6 +497,14 @@ def run_item(item: tuple[Any, ...]) -> Any:
     pname, params, seeds, env, max_sessions, model_only = item
     env = tuple(env)
     res = Result()
+    if pname == "__cross__":
+        docs = run_child(env, {}, seeds, cross=params["sets"])
+        res.count("child_processes")
+        for d in docs:
+            res.notes.setdefault("cross", {})[f"{params['family']}|{params['order']}|{d['pname']}|{d['seed']}"] = f"{d['pos']}:{d['model_sha']}"
+            res.count("cross_parameter_set_models")
+            res.count("evaluations")
+        return res
     docs = run_child(env, params, seeds, max_sessions=max_sessions, model_only=model_only)
     res.count("child_processes")
     for d in docs:
@@ -439,8 +523,9 @@ def run_item(item: tuple[Any, ...]) -> Any:
         for b, h in d["blocks"].items():
             res.seen("nontrivial", ("block", h))
         m = ref.Model({int(s, 16): {int(k, 16): v for k, v in dd.items()} for s, dd in d["model"].items()})
-        mand_sessions = params.get("mandatory_sessions", [1])
-        mand_services = params.get("mandatory_services", [0x10])
+        oracle = params.get("__oracle__", params)
+        mand_sessions = oracle.get("mandatory_sessions", [1])
+        mand_services = oracle.get("mandatory_services", [0x10])
         rp = {"kind": "model", "pname": pname, "params": params, "seed": d["seed"]}
         for prob in ref.session_graph_ok(m, mand_sessions, mand_services):
             res.violate(f"C16|model|{_strip(prob)}|params={_plabel(pname)}", f"seed {d['seed']} params {pname}: {prob}; model {d['model']}", rp)
@@ -482,8 +567,8 @@ def finish(merged: Any, tier: str) -> dict[str, Any]:
     envs, n_default, n_other, _batch, max_sessions = _bounds(tier)
     tr = {k: json.loads(v) for k, v in merged.notes.pop("transcripts", {}).items()}
     by_env = {e[0]: e for e in envs}
-    params_by_name = dict(PARAM_SETS + OVERLAP_SETS)
-    overlap_names = {n for n, _ in OVERLAP_SETS}
+    params_by_name = dict(PARAM_SETS + OVERLAP_SETS + CLI_SETS)
+    overlap_names = {n for n, _ in OVERLAP_SETS + CLI_SETS}  # the model-only sets
     compared = 0
     # which environments differ, per (parameter set, seed)
     differing: dict[tuple[str, str], list[str]] = {}
@@ -521,6 +606,27 @@ def finish(merged: Any, tier: str) -> dict[str, Any]:
             f"params {pname} seed {seed_s}: environments {labels} differ from the reference environment; e.g. {label} (PYTHONHASHSEED={env[1]}, import order {env[2]}, clock {env[3]}): {text}",
             {"kind": "diff", "pname": pname, "params": params_by_name[pname], "seed": int(seed_s), "env": list(env), "axis": axis, "max_sessions": max_sessions, "model_only": pname in overlap_names},
         )
+    # parameter sets with equal seed and probabilities built in one process: each model must be its own
+    cross = merged.notes.pop("cross", {})
+    cross_compared = 0
+    fams = _families()
+    for key in sorted(cross):
+        fam, order, pname, seed_s = key.split("|")
+        pos, sha = cross[key].split(":")
+        refd = tr.get(f"{pname}|{seed_s}|ref")
+        if refd is None:
+            raise Broken(f"no reference transcript for {pname} seed {seed_s} (cross-parameter-set case)")
+        cross_compared += 1
+        if sha != refd["model"]:
+            members = fams[int(fam)] if order == "F" else fams[int(fam)][::-1]
+            merged.violate(
+                f"C16|model|depends-on-parameter-sets-used-earlier-in-the-process|{'first-in-process' if pos == '0' else 'later-in-process'}",
+                f"params {pname} seed {seed_s}: built as #{pos} of {members} (same seed, same probabilities, different lists) in one process, "
+                f"the model differs from the one a fresh process builds for {pname}",
+                {"kind": "cross", "pname": pname, "params": params_by_name[pname], "seed": int(seed_s), "sets": [[n, params_by_name[n]] for n in members]},
+            )
+    if not cross_compared:
+        raise Broken("no cross-parameter-set cases were compared")
     want = sum(len(it[2]) for it in items(tier, 0) if it[3][0] != "ref")
     if compared != want:
         raise Broken(f"compared {compared} transcripts, expected {want}")
@@ -531,6 +637,8 @@ def finish(merged: Any, tier: str) -> dict[str, Any]:
         "bound": {"seeds_default": n_default, "seeds_other_parameter_sets": n_other, "parameter_sets": [p for p, _ in PARAM_SETS], "environments": [e[0] for e in envs], "max_sessions": max_sessions,
                   "model_only_parameter_sets": [p for p, _ in OVERLAP_SETS], "model_only_seeds": 32 if tier == "quick" else 256, "model_only_environments": [list(e) for e in OVERLAP_ENVS]},
         "transcript_pairs_compared": compared,
+        "cross_parameter_set_models_compared": cross_compared,
+        "cli_parameter_sets": [p for p, _ in CLI_SETS],
     }
 
 
@@ -540,11 +648,20 @@ def replay(doc: dict[str, Any]) -> Any:
 
     res = Result()
     pname, params, seed = doc["pname"], doc["params"], doc["seed"]
+    if doc["kind"] == "cross":
+        own = run_child(ENVS_QUICK[0], params, [seed], model_only=True)[0]
+        own_sha = hashlib.sha256(json.dumps(own["model"], sort_keys=True).encode()).hexdigest()
+        for d in run_child(ENVS_QUICK[0], {}, [seed], cross=doc["sets"]):
+            print(f"    #{d['pos']} {d['pname']}: {d['model_sha'][:16]}" + (f"  (fresh process: {own_sha[:16]})" if d["pname"] == pname else ""))
+            if d["pname"] == pname and d["model_sha"] != own_sha:
+                res.violate(f"C16|model|depends-on-parameter-sets-used-earlier-in-the-process|{'first-in-process' if d['pos'] == 0 else 'later-in-process'}", "model differs from the fresh-process model", doc)
+        return res
     if doc["kind"] == "model":
-        d = run_child(ENVS_QUICK[0], params, [seed], max_sessions=1)[0]
+        d = run_child(ENVS_QUICK[0], params, [seed], max_sessions=1, model_only=True)[0]
         print("    model:", d["model"])
         m = ref.Model({int(s, 16): {int(k, 16): v for k, v in dd.items()} for s, dd in d["model"].items()})
-        for prob in ref.session_graph_ok(m, params.get("mandatory_sessions", [1]), params.get("mandatory_services", [0x10])):
+        oracle = params.get("__oracle__", params)
+        for prob in ref.session_graph_ok(m, oracle.get("mandatory_sessions", [1]), oracle.get("mandatory_services", [0x10])):
             res.violate(f"C16|model|{_strip(prob)}|params={_plabel(pname)}", prob, doc)
         for sig, msg in _same_process_problems(d["same_process"]):
             res.violate(f"C16|{sig}", msg, doc)
